@@ -88,10 +88,24 @@ def decide(out, obs, n, st, rule):
     out.cov["distinct_nontrivial"] = len(multi)
     out.cov["samples"] = samples
     out.cov["rule"] = rule + "; non-trivial = a spelling with at least two different operators"
+    failing = {fl["line"] for fl in fails}
+    origin = {}
+    if failing:
+        for ln, o in enumerate(vlib.read_ndjson(obs)):
+            if ln in failing:
+                origin[ln] = {k: o[k] for k in ("src", "toks", "variant", "want") if k in o}
     for fl in fails:
-        out.fail(fl.get("kf", "NEW"), "%s: %r" % (fl["why"], fl["src"]), {"src": fl["src"], "variant": fl["variant"], "why": fl["why"], "expected": fl["expected"], "got": fl["got"]},
-                 family=fl["why"])
+        out.fail(fl.get("kf", "NEW"), "%s: %r" % (fl["why"], fl["src"]), {"src": fl["src"], "variant": fl["variant"], "why": fl["why"], "expected": fl["expected"], "got": fl["got"],
+                                                                        "parse_case": origin.get(fl["line"])}, family=fl["why"])
 
 
 def replay(out, path):
-    raise vlib.ToolError("re-run `bin/check C02 quick`; cases are regenerated deterministically")
+    case = json.load(open(path))["case"].get("parse_case")
+    if not case:
+        raise vlib.ToolError("the replay file carries no parse_case: re-run the full check")
+    wd = vlib.workdir(out.pid)
+    cases = os.path.join(wd, "cases.ndjson")
+    vlib.write_ndjson(cases, [case])
+    obs = os.path.join(wd, "obs.ndjson")
+    st = vlib.run_workers("parse", cases, 1, obs, timeout=15)
+    decide(out, obs, 1, st, "replay of one recorded case")
